@@ -137,7 +137,7 @@ for T, sfx in (('uint8_t', '_u8'), ('uint64_t', '_u64')):
             prelude=P, uses=['PRA_' + u + sfx for u in uses], inline=['PRA_' + u + sfx for u in inl],
             lower=list(extra) + [Rr for Rr in COMMON] + [M, rx(r'@', sfx, 0), rx(_IDRX.pattern, (lambda m, sfx=sfx: m.group(1) + sfx), 0), rx(r'struct PRA(?![\w])', 'struct PRA' + sfx, 0)],
             loops={k: sfxify(v, sfx) for k, v in (loops or {}).items()}, ctor_inits=ctor_inits,
-            no_flags=['--conversion-check'] + (['--pointer-overflow-check'] if nullplus0 else []), inst='_Tp = %s' % T, says=says,
+            no_flags=['--conversion-check'] + (['--pointer-overflow-check'] if nullplus0 else []), inst='_Tp = %s' % T, says=says, timeout=kw.pop('timeout', 900),
             **{k: (sfxify(v, sfx) if k in ('post_pre', 'ghost_prefix', 'harness_pre') else v) for k, v in kw.items()}))
 
     U('reserve', r'void reserve\(size_t n\)', 'void PRA_reserve@(struct PRA* self, size_t n)',
